@@ -1,14 +1,14 @@
 #!/bin/bash
 # run every check of a SNAPSHOT of /verif against a SNAPSHOT of /repo (so that work in the live directories does not disturb a long run)
-# usage: tools/snapshot_run.sh <tier> <seed> [name]      output: /tmp/vsnap_<name>/out/<Cxx>.out and summary.txt
-TIER=${1:-thorough}; SEED=${2:-0}; NAME=${3:-a}
+# usage: tools/snapshot_run.sh <tier> <seed> [name] ["C10 C14 ..."]      output: /tmp/vsnap_<name>/out/<Cxx>.out and summary.txt
+TIER=${1:-thorough}; SEED=${2:-0}; NAME=${3:-a}; ONLY=${4:-}
 D=/tmp/vsnap_$NAME
 rm -rf $D; mkdir -p $D/out
 rsync -a --exclude .git /verif/ $D/verif/
 rsync -a --exclude .git /repo/ $D/repo/
 cd $D/verif
 export VERIF_REPO=$D/repo
-for P in $(python3 -c "import json;print(' '.join(c['property_id'] for c in json.load(open('MANIFEST.json'))['checks']))"); do
+for P in ${ONLY:-$(python3 -c "import json;print(' '.join(c['property_id'] for c in json.load(open('MANIFEST.json'))['checks']))")}; do
   VERIF_SEED=$SEED ./check $P $TIER > $D/out/$P.out 2>&1; RC=$?
   echo "$P rc=$RC $(tail -1 $D/out/$P.out | cut -c1-200)" >> $D/out/summary.txt
 done
